@@ -149,7 +149,12 @@ fn run(w: &str) -> i32 {
         "codec" => proto_w::run_codec(w),
         "pair" => engine_w::run_pair(w),
         "siggen" => engine_w::run_siggen(w),
-        "sigtable" => { println!("re-run: copia-replay twin signature_table <seed> 1"); 1 }
+        "sigtable" => {
+            // the witness carries the seed of the failing round: re-run exactly that round on the current code
+            let rc = engine_w::twin_signature_table(json_u64(w, "seed").unwrap_or(0), 0);
+            if rc == 0 { println!("not reproduced: SignatureTable lookups agree with their contract on this round"); } else { println!("REPRODUCED (the WITNESS line above)"); }
+            rc
+        }
         "reconcile" => plan_w::run_reconcile(w),
         "build_plan" => plan_w::run_plan(w),
         "is_excluded" => twins::run_is_excluded(w),
